@@ -119,7 +119,7 @@ func cmdFn(args []string) {
 						cj := conjuncts(o.Goal)
 						for k, v := range o.Conj {
 							if !v && k < len(cj) {
-								fmt.Printf("            false conjunct %d: %s\n", k+1, truncate(cj[k].String(), 300))
+								fmt.Printf("            false conjunct %d: %s\n", k+1, cj[k].StringN(300))
 							}
 						}
 					}
@@ -137,7 +137,7 @@ func cmdFn(args []string) {
 							vals := pairValues(rest)
 							for k, p := range probes {
 								if k < len(vals) {
-									fmt.Printf("              %s  =  %s\n", truncate(p.String(), explainWidth()), vals[k])
+									fmt.Printf("              %s  =  %s\n", p.StringN(explainWidth()), vals[k])
 								}
 							}
 						}
